@@ -91,7 +91,7 @@ def parse_manifest(kind, data: bytes):
         names = []
         raw = cp.get("options", "install_requires", fallback="") if cp.has_section("options") else ""
         lines = [l for l in raw.split("\n") if l.strip()]
-        if len(lines) == 1 and raw.strip() and "\n" not in raw.strip():
+        if len(lines) == 1 and raw.strip() and not raw.startswith("\n"):  # value on the key's own line = inline list
             # inline list: setuptools splits a single line at commas... but a requirement may itself hold commas in its
             # specifier; setuptools' own rule: one line -> split on ';'-free commas only when no newline is present
             items = [x for x in lines[0].split(",")]
